@@ -314,12 +314,13 @@ impl ExprGen {
     }
 
     fn node_test(&self, rng: &mut Rng, axis: Axis) -> NodeTest {
-        match rng.below(20) {
+        match rng.below(24) {
             0..=11 => self.name_test(rng, axis),
-            12..=14 => NodeTest::Node,
-            15..=16 => NodeTest::Text,
-            17 => NodeTest::Comment,
-            18 => NodeTest::PI(None),
+            12..=14 => NodeTest::AnyName,
+            15..=18 => NodeTest::Node,
+            19..=20 => NodeTest::Text,
+            21 => NodeTest::Comment,
+            22 => NodeTest::PI(None),
             _ => NodeTest::PI(Some(rng.pick(&PI_TARGETS).to_string())),
         }
     }
@@ -360,7 +361,7 @@ impl ExprGen {
         let pos = || Expr::call("position", vec![]);
         let last = || Expr::call("last", vec![]);
         match rng.below(16) {
-            0..=2 => Expr::num([1.0, 1.0, 2.0, 2.0, 3.0, 4.0, 0.0, 1.5][rng.below(8)]),
+            0..=2 => Expr::num([1.0, 1.0, 1.0, 2.0, 2.0, 2.0, 3.0, 3.0, 4.0, 1.0, 2.0, 0.0, 1.5][rng.below(13)]),
             3 => last(),
             4 => Expr::bin(BinOp::Sub, last(), Expr::num(1.0)),
             5 => {
